@@ -47,13 +47,20 @@ def run(pid, units, tier, seed, bdir, repo, root, jobs):
         if rc != 0: res["broken"].append("clang failed on %s:\n%s" % (unit["wrapper"], out[-2000:])); continue
         ir_lines = sum(1 for _ in open(base + ".ll")); fns = re.findall(r"^define [^@]*(@[\w.$]+)", open(base + ".ll").read(), re.M)
         # ---- translator validation: the executor in concrete mode against the native g++ build (real files, real std::fstream) on the driver's script
-        cmds = [["g++", "-std=c++17", "-O1", "-w", "-DNDEBUG", "-DAMGCL_NO_BOOST", "-I" + repo, "-c", src, "-o", base + "_real.o"], ["gcc", "-O1", "-w", "-c", os.path.join(root, "cwrap", unit["driver"]), "-o", base + "_drv.o"], ["g++", base + "_drv.o", base + "_real.o", "-o", base + "_drv_real"]]
+        # the native build uses the hardened libstdc++ (-D_GLIBCXX_ASSERTIONS, as several distributions build everything): operator[] on an empty vector,
+        # front()/back() of an empty container etc. abort there although they have no observable effect otherwise
+        cmds = [["g++", "-std=c++17", "-O1", "-w", "-DNDEBUG", "-D_GLIBCXX_ASSERTIONS", "-DAMGCL_NO_BOOST", "-I" + repo, "-c", src, "-o", base + "_real.o"], ["gcc", "-O1", "-w", "-c", os.path.join(root, "cwrap", unit["driver"]), "-o", base + "_drv.o"], ["g++", base + "_drv.o", base + "_real.o", "-o", base + "_drv_real"]]
         ok = True
         for c in cmds:
             rc, out, dt = sh(c, timeout=600)
             if rc != 0: res["broken"].append("native driver build failed: %s\n%s" % (" ".join(c), out[-1500:])); ok = False; break
         if not ok: continue
         a = sh([base + "_drv_real", str(seed)], timeout=300); iters = unit.get("diff_iters", 30)
+        if a[0] in (-6, 134) and "ssertion" in a[1]:
+            m = re.search(r"[^\n]*Assertion[^\n]*", a[1]); last = [l for l in a[1].split("\n") if l and "ssertion" not in l][-1:]
+            res["violations"].append(dict(engine="X", harness=unit["name"], case="native driver script of %s (valid files and truncations), hardened libstdc++ build" % unit["driver"], obligation="library assertion aborts the real reader/writer: " + (m.group(0)[:300] if m else "abort"),
+                detail="g++ -D_GLIBCXX_ASSERTIONS build of the real templates, seed %s; last completed script line: %s" % (seed, (last[0][:200] if last else "-")), model={}, prefix="", trace=None, unit=unit["name"], fn="native", defines=[], replayed=True, native_cmd=[base + "_drv_real", str(seed)]))
+            res["evaluations"] += 1; continue
         b = sh([PY, os.path.join(root, "lib", "c19x.py"), "--ll", base + ".ll", unit.get("diff_opt", "--diff"), str(iters), str(seed)], timeout=1800)
         la = a[1].split("\n"); lb = [x for x in b[1].split("\n") if x.strip()]
         if a[0] != 0 or b[0] != 0 or not lb or la[:len(lb)] != lb:
@@ -102,6 +109,8 @@ def run(pid, units, tier, seed, bdir, repo, root, jobs):
 def replay(R, bdir, repo, root):
     import props
     unit = [u for u in props.PROPS[R["property"]]["X"] if u["name"] == R["harness"]][0]
+    if R.get("fn") == "native":
+        print(R.get("obligation")); print(R.get("detail")); print("VIOLATION property=%s replay=%s" % (R["property"], "replays/")); return 1
     ok = enginec.replay_trace(unit, dict(fn=R["fn"], defines=R.get("defines", [])), dict((k, int(v)) for k, v in R["model"].items()), bdir, repo, root)
     log = os.path.join(bdir, unit["name"] + "_replay_" + R["fn"] + ".log")
     if os.path.exists(log): print(open(log).read()[-3000:])
